@@ -119,3 +119,31 @@ func FuzzSettingsOne(text string) bool {
 	}
 	return true
 }
+
+// FuzzSeeds returns the seed corpus of a target; the fuzz part runs it in process under the panic monitor
+// before handing over to the fuzzing engine (which reports a failing seed without writing an input file).
+func FuzzSeeds(target string) [][]interface{} {
+	var out [][]interface{}
+	switch target {
+	case "FuzzParse":
+		n := FuzzDictCount()
+		for i, m := range FuzzSeedMessages(150) {
+			out = append(out, []interface{}{m, uint8(i % n), uint8(i)})
+		}
+	case "FuzzStream":
+		ms := FuzzSeedMessages(40)
+		for i := 0; i+2 < len(ms); i += 3 {
+			out = append(out, []interface{}{append(append(append([]byte{}, ms[i]...), ms[i+1]...), ms[i+2]...), uint8(i)})
+		}
+		for i, b := range []string{"9223372036854775807", "-9223372036854775808", "4294967296", "0"} {
+			out = append(out, []interface{}{[]byte("8=FIX.4.2\x019=" + b + "\x0135=0\x0110=000\x01"), uint8(i)})
+		}
+	case "FuzzDictionary":
+		out = append(out, []interface{}{FuzzDictionarySeed()})
+	case "FuzzSettings":
+		for _, s := range FuzzSettingsSeeds() {
+			out = append(out, []interface{}{s})
+		}
+	}
+	return out
+}
